@@ -7,21 +7,360 @@ import Rtcp.Proofs.VarFci
 namespace Rtcp.Proofs
 open Rtcp Rtcp.Impl Rtcp.Spec Rtcp.Props
 
+/-! ## NACK: the sorted set -/
+
+theorem mem_sortedInsert (x : UInt16) (l : List UInt16) :
+    ∀ z, z ∈ sortedInsert x l → z = x ∨ z ∈ l := by
+  induction l with
+  | nil => intro z hz; simp [sortedInsert] at hz; exact .inl hz
+  | cons y ys ih =>
+    intro z hz
+    unfold sortedInsert at hz
+    split at hz
+    · simp at hz; rcases hz with h | h | h <;> simp [h]
+    · split at hz
+      · exact .inr hz
+      · simp at hz
+        rcases hz with h | h
+        · simp [h]
+        · rcases ih z h with h | h <;> simp [h]
+
+theorem sortedInsert_pairwise (x : UInt16) (l : List UInt16) (h : l.Pairwise (· < ·)) :
+    (sortedInsert x l).Pairwise (· < ·) := by
+  induction l with
+  | nil => simp [sortedInsert]
+  | cons y ys ih =>
+    rw [List.pairwise_cons] at h
+    unfold sortedInsert
+    split
+    · next hxy =>
+      rw [List.pairwise_cons]
+      refine ⟨?_, List.pairwise_cons.mpr h⟩
+      intro z hz
+      simp at hz
+      rcases hz with rfl | hz
+      · exact hxy
+      · exact UInt16.lt_trans hxy (h.1 z hz)
+    · next hxy =>
+      split
+      · exact List.pairwise_cons.mpr h
+      · next hne =>
+        rw [List.pairwise_cons]
+        refine ⟨?_, ih h.2⟩
+        intro z hz
+        rcases mem_sortedInsert x ys z hz with rfl | hz
+        · have h1 : ¬ z.toNat < y.toNat := fun hh => hxy (UInt16.lt_iff_toNat_lt.mpr hh)
+          have h2 : z.toNat ≠ y.toNat := fun hh => hne (by simp [UInt16.toNat_inj.mp hh])
+          exact UInt16.lt_iff_toNat_lt.mpr (by omega)
+        · exact h.1 z hz
+
 theorem nack_sorted_add (b : NackBuilder) (s : UInt16) (h : b.rtpSeq.Pairwise (· < ·)) :
-    (b.addRtpSequence s).rtpSeq.Pairwise (· < ·) := by sorry
+    (b.addRtpSequence s).rtpSeq.Pairwise (· < ·) := sortedInsert_pairwise s b.rtpSeq h
 
-theorem nack_refines (b : NackBuilder) (h : b.rtpSeq.Pairwise (· < ·)) : Refines b.toFci.w (nackImage b) := by sorry
+/-! ## NACK: entries and writer -/
 
-theorem fir_refines (b : FirBuilder) : Refines b.toFci.w (firImage b) := by sorry
+theorem encodeEntry_eq (base mask : Nat) :
+    NackBuilder.encodeEntry base mask = nackWordImage ⟨base, mask⟩ := by
+  simp only [NackBuilder.encodeEntry, nackWordImage, be16, Nat.toUInt16, UInt16.toNat_ofNat',
+    List.cons_append, List.nil_append]
+  have h1 : base % 2 ^ 16 / 256 % 256 = base / 256 % 256 := by omega
+  have h2 : base % 2 ^ 16 % 256 = base % 256 := by omega
+  have h3 : mask % 2 ^ 16 / 256 % 256 = mask / 256 % 256 := by omega
+  have h4 : mask % 2 ^ 16 % 256 = mask % 256 := by omega
+  rw [h1, h2, h3, h4]
 
-theorem sli_refines (b : SliBuilder) : Refines b.toFci.w (sliImage b) := by sorry
+theorem nack_go_eq (rest : List UInt16) : ∀ (base mask : Nat), (∀ e ∈ rest, base ≤ e.toNat) →
+    rest.Pairwise (· < ·) →
+    NackBuilder.go base mask rest
+      = (nackEncodeFrom base mask (rest.map (·.toNat))).map nackWordImage := by
+  induction rest with
+  | nil => intro base mask _ _; simp [NackBuilder.go, nackEncodeFrom, encodeEntry_eq]
+  | cons e rest ih =>
+    intro base mask hb hp
+    rw [List.pairwise_cons] at hp
+    have he : base ≤ e.toNat := hb e (by simp)
+    have hlt := e.toNat_lt
+    have hd : (e.toNat + 65536 - base) % 65536 = e.toNat - base := by omega
+    have hrest : ∀ x ∈ rest, base ≤ x.toNat := fun x hx => hb x (by simp [hx])
+    have hrest' : ∀ x ∈ rest, e.toNat ≤ x.toNat := fun x hx =>
+      Nat.le_of_lt (UInt16.lt_iff_toNat_lt.mp (hp.1 x hx))
+    unfold NackBuilder.go
+    simp only [List.map_cons, nackEncodeFrom, hd]
+    by_cases h16 : e.toNat - base > 16
+    · simp only [h16, ↓reduceIte, List.map_cons, encodeEntry_eq]
+      rw [ih _ _ hrest' hp.2]
+    · simp only [h16, ↓reduceIte]
+      by_cases h0 : e.toNat - base > 0
+      · have h0' : e.toNat > base := by omega
+        simp only [h0, h0', ↓reduceIte, Nat.one_shiftLeft]
+        exact ih _ _ hrest hp.2
+      · have h0' : ¬ e.toNat > base := by omega
+        simp only [h0, h0', ↓reduceIte]
+        exact ih _ _ hrest hp.2
 
-theorem rpsi_refines (b : RpsiBuilder) : Refines b.toFci.w (rpsiImage b) := by sorry
+theorem nack_entries_eq_image (b : NackBuilder) (h : b.rtpSeq.Pairwise (· < ·)) :
+    b.entries = (nackEncode (b.rtpSeq.map (·.toNat))).map nackWordImage := by
+  unfold NackBuilder.entries
+  split
+  · next heq => simp [heq, nackEncode]
+  · next s rest heq =>
+    rw [heq] at h ⊢
+    rw [List.pairwise_cons] at h
+    simp only [List.map_cons, nackEncode]
+    exact nack_go_eq rest _ _
+      (fun x hx => Nat.le_of_lt (UInt16.lt_iff_toNat_lt.mp (h.1 x hx))) h.2
 
-theorem pli_refines : Refines pliFci.w [] := by sorry
+theorem nack_writeEntries (es : List Bytes) : ∀ (d r : Bytes) (i : Nat), i = d.length →
+    (∀ e ∈ es, e.length = 4) → 4 * es.length ≤ r.length →
+    NackBuilder.writeEntries es (d ++ r) i
+      = .ok ((d ++ es.flatten) ++ r.drop (4 * es.length), i + 4 * es.length) := by
+  induction es with
+  | nil => intro d r i hi _ _; simp [NackBuilder.writeEntries]
+  | cons e es ih =>
+    intro d r i hi h4 hr
+    simp only [List.length_cons] at hr
+    have he : e.length = 4 := h4 e (by simp)
+    unfold NackBuilder.writeEntries
+    rw [Var.copyAt_app d r e i (i + 4) hi (by simp [hi, he]) (by omega)]
+    simp only
+    rw [ih _ _ (i + 4) (by simp [hi, he]) (fun x hx => h4 x (by simp [hx])) (by simp; omega)]
+    simp [List.drop_drop, he]
+    constructor
+    · congr 1; omega
+    · omega
+
+theorem nackWordImage_length (w : NackWord) : (nackWordImage w).length = 4 := rfl
+
+theorem nackImage_length (b : NackBuilder) (h : b.rtpSeq.Pairwise (· < ·)) :
+    (nackImage b).length = 4 * b.entries.length := by
+  rw [nack_entries_eq_image b h, nackImage]
+  generalize nackEncode _ = ws
+  induction ws with
+  | nil => rfl
+  | cons w ws ih => simp [nackWordImage_length] at ih ⊢; omega
+
+theorem nack_tail (b : NackBuilder) (h : b.rtpSeq.Pairwise (· < ·)) :
+    Var.TailSpec b.toFci.w.write (nackImage b) := by
+  intro r hr
+  rw [nackImage_length b h] at hr ⊢
+  show NackBuilder.writeEntries b.entries r 0 = _
+  have := nack_writeEntries b.entries [] r 0 rfl
+    (by rw [nack_entries_eq_image b h]; intro e he; simp at he; obtain ⟨w, _, rfl⟩ := he; rfl) hr
+  simp only [List.nil_append, Nat.zero_add] at this
+  rw [this, nack_entries_eq_image b h, nackImage]
+
+theorem nack_refines (b : NackBuilder) (h : b.rtpSeq.Pairwise (· < ·)) : Refines b.toFci.w (nackImage b) := by
+  apply Var.refines_of_tail
+  · show b.calcSize ≠ .panic
+    simp only [NackBuilder.calcSize]; split <;> simp
+  · intro n hn
+    refine ⟨?_, nack_tail b h⟩
+    simp only [NackBuilder.calcSize] at hn
+    split at hn
+    · cases hn
+    · cases hn
+      rw [nackImage_length b h]; omega
+
+theorem fir_refines (b : FirBuilder) : Refines b.toFci.w (firImage b) := by
+  apply Var.refines_of_tail
+  · show b.calcSize ≠ .panic
+    simp only [FirBuilder.calcSize]; split <;> simp
+  · intro n hn
+    refine ⟨?_, Var.fir_tail b⟩
+    simp only [FirBuilder.calcSize] at hn
+    split at hn
+    · cases hn
+    · cases hn
+      rw [firImage, Var.length_firImage]; omega
+
+theorem sli_refines (b : SliBuilder) : Refines b.toFci.w (sliImage b) := by
+  apply Var.refines_of_tail
+  · show b.calcSize ≠ .panic
+    simp [SliBuilder.calcSize]
+  · intro n hn
+    refine ⟨?_, Var.sli_tail b⟩
+    unfold SliBuilder.calcSize at hn
+    cases hn
+    rw [sliImage, Var.length_sliImage]
+
+/-! ## RPSI -/
+
+theorem zeroLoop_app (k : Nat) : ∀ (d r : Bytes) (i : Nat), i = d.length → k ≤ r.length →
+    RpsiBuilder.zeroLoop k (d ++ r) i = .ok ((d ++ List.replicate k 0) ++ r.drop k, i + k) := by
+  induction k with
+  | zero => intro d r i _ _; simp [RpsiBuilder.zeroLoop]
+  | succ k ih =>
+    intro d r i hi hr
+    unfold RpsiBuilder.zeroLoop
+    rw [Var.setByte_app d r i 0 hi (by omega)]
+    simp only
+    rw [ih _ _ (i + 1) (by simp [hi]) (by simp; omega)]
+    simp [List.replicate_succ]
+    omega
+
+theorem rpsiImage_length (b : RpsiBuilder) :
+    (rpsiImage b).length = pad4 (2 + b.nativeBitString.length) := by
+  have hp := Var.pad4_ge (2 + b.nativeBitString.length)
+  unfold rpsiImage
+  rcases List.eq_nil_or_concat b.nativeBitString with h | ⟨init, l, h⟩
+  · simp [h]; simp [h] at hp; omega
+  · rw [h] at hp ⊢
+    simp at hp ⊢
+    omega
+
+theorem rpsi_tail (b : RpsiBuilder) : Var.TailSpec b.toFci.w.write (rpsiImage b) := by
+  intro r hr
+  rw [rpsiImage_length] at hr ⊢
+  have hp := Var.pad4_ge (2 + b.nativeBitString.length)
+  show b.writeUnchecked r = _
+  unfold RpsiBuilder.writeUnchecked
+  simp only [bind, R.bind, pure]
+  have h0 := Var.setByte_app (ε := WriteError) [] r 0
+    ((8 * (pad4 (2 + b.nativeBitString.length) - b.nativeBitString.length - 2)
+      + b.nativeBitOverrun.toNat) % 256).toUInt8 rfl (by omega)
+  simp only [List.nil_append] at h0
+  rw [h0]
+  simp only
+  rw [Var.setByte_app _ _ 1 b.payloadType (by simp) (by simp; omega)]
+  simp only
+  rw [Var.copyAt_app _ _ b.nativeBitString 2 _ (by simp) (by simp) (by simp; omega)]
+  simp only
+  generalize hv0 : ((8 * (pad4 (2 + b.nativeBitString.length) - b.nativeBitString.length - 2)
+      + b.nativeBitOverrun.toNat) % 256).toUInt8 = v0
+  rcases List.eq_nil_or_concat b.nativeBitString with h | ⟨init, l, h⟩
+  · simp only [h, List.isEmpty_nil, Bool.not_true, Bool.false_eq_true, ↓reduceIte]
+    rw [zeroLoop_app _ _ _ _ (by simp) (by simp [h] at hr hp ⊢; omega)]
+    subst hv0
+    simp [rpsiImage, h, List.drop_drop, show pad4 2 = 4 from rfl]
+  · rw [List.concat_eq_append] at h
+    have hne : (!b.nativeBitString.isEmpty) = true := by simp [h]
+    simp only [hne, ↓reduceIte]
+    subst hv0
+    simp only [rpsiImage, h, List.length_append, List.length_singleton] at hr hp ⊢
+    have e1 : ∀ (v : UInt8) (t : Bytes), [v] ++ [b.payloadType] ++ (init ++ [l]) ++ t
+        = ([v, b.payloadType] ++ init) ++ l :: t := by intro v t; simp
+    rw [e1]
+    rw [Var.idx_app _ _ _ _ (by simp; omega)]
+    simp only
+    rw [Var.setByte_mid _ _ _ _ _ (by simp; omega)]
+    simp only
+    have e2 : ∀ (d t : Bytes) (x : UInt8), d ++ x :: t = (d ++ [x]) ++ t := by intro d t x; simp
+    rw [e2, zeroLoop_app _ _ _ _ (by simp; omega) (by simp; omega)]
+    simp [List.drop_drop]
+    refine ⟨?_, by omega⟩
+    congr 2 <;> omega
+
+theorem rpsi_refines (b : RpsiBuilder) : Refines b.toFci.w (rpsiImage b) := by
+  apply Var.refines_of_tail
+  · show b.calcSize ≠ .panic
+    unfold RpsiBuilder.calcSize; split
+    · simp
+    · split <;> simp
+  · intro n hn
+    refine ⟨?_, rpsi_tail b⟩
+    unfold RpsiBuilder.calcSize at hn
+    split at hn
+    · cases hn
+    · split at hn
+      · cases hn
+      · cases hn
+        exact rpsiImage_length b
+
+theorem pli_refines : Refines pliFci.w [] := by
+  apply Var.refines_of_tail
+  · simp
+  · intro n hn
+    cases hn
+    exact ⟨rfl, Var.pli_tail⟩
+
+/-! ## feedback packets -/
+
+theorem fbType_and_comm (a b : FbType) : FbType.and a b = FbType.and b a := by
+  simp [FbType.and, Bool.and_comm]
+
+/-- what the feedback writer needs from an FCI builder -/
+structure FciGood (fci : Fci) (img : Bytes) : Prop where
+  fmt : fci.format.toNat ≤ 31
+  noPanic : fci.w.calcSize ≠ .panic
+  size : ∀ n, fci.w.calcSize = .ok n → img.length = n ∧ n % 4 = 0
+  tail : Var.TailSpec fci.w.write img
+
+theorem fb_refines_gen (k : FbKind) (fci : Fci) (img : Bytes) (hg : FciGood fci img)
+    (p : UInt8) (s m : UInt32) :
+    Refines (FbBuilder.toWriter ⟨k, fci, p, s, m⟩)
+      (packet k.pt fci.format.toNat p (be32 s ++ be32 m ++ img)) := by
+  rcases checkPadding_cases p with ⟨hp, hcp⟩ | ⟨hp, hcp⟩
+  case inr =>
+    exact refines_of_err (e := .invalidPadding p) (by
+      show FbBuilder.calcSize _ = _
+      simp only [FbBuilder.calcSize, hcp, R.err_bind])
+  by_cases hty : (FbType.and fci.supports k.ty == FbType.none) = true
+  · exact refines_of_err (e := .fciWrongFeedbackPacketType) (by
+      show FbBuilder.calcSize _ = _
+      simp only [FbBuilder.calcSize, hcp, R.ok_bind, hty, ↓reduceIte])
+  cases hcs : fci.w.calcSize with
+  | panic => exact absurd hcs hg.noPanic
+  | err e =>
+    exact refines_of_err (e := e) (by
+      show FbBuilder.calcSize _ = _
+      simp only [FbBuilder.calcSize, hcp, R.ok_bind, hty, hcs, R.err_bind]
+      rfl)
+  | ok n =>
+    obtain ⟨hl, hn4⟩ := hg.size n hcs
+    have hpad : pad4 n = n := Var.pad4_of_mod hn4
+    have hcalc : FbBuilder.calcSize ⟨k, fci, p, s, m⟩ = checkPacketLen (12 + n + p.toNat) := by
+      simp only [FbBuilder.calcSize, hcp, R.ok_bind, hty, hcs, hpad]
+      rfl
+    unfold checkPacketLen at hcalc
+    split at hcalc
+    · exact refines_of_err hcalc
+    · refine refines_of_ok hcalc ?_ ?_
+      · simp [packet_length, hl]; omega
+      · intro buf hb
+        show FbBuilder.writeUnchecked _ buf = _
+        have hty' : ¬ (FbType.and k.ty fci.supports == FbType.none) = true := by
+          rw [fbType_and_comm]; exact hty
+        have hfmt : ¬ fci.format > 0x1f := by
+          have := hg.fmt
+          simp [UInt8.lt_iff_toNat_lt]; omega
+        simp only [FbBuilder.writeUnchecked, hty', hfmt, ↓reduceIte, Bool.false_eq_true]
+        rw [writeHeader_spec _ _ _ _ (by omega) hg.fmt]
+        simp only [R.ok_bind]
+        rw [copyAt_append (by simp) (by simp) (by simp; omega)]
+        simp only [R.ok_bind]
+        rw [copyAt_append (by simp) (by simp) (by simp; omega)]
+        simp only [R.ok_bind]
+        rw [withTail_append (by simp) (hg.tail _ (by simp; omega))]
+        simp only [R.ok_bind]
+        rw [← List.append_assoc]
+        rw [withTail_writePadding_final _ (by simp; omega) (by simp; omega)]
+        simp only [R.ok_bind, R.pure_eq]
+        rw [← packet_eq _ _ _ _ (total := buf.length) (by simp; omega)]
+        simp [List.append_assoc, hl]
+
+theorem fciGood_of_refines {fci : Fci} {img : Bytes} (hfmt : fci.format.toNat ≤ 31)
+    (hr : Refines fci.w img) (h4 : img.length % 4 = 0) (ht : Var.TailSpec fci.w.write img) :
+    FciGood fci img :=
+  ⟨hfmt, hr.noPanic, fun n hn => by have := (hr.exact n hn).1; exact ⟨this, by omega⟩, ht⟩
 
 theorem fb_refines (k : FbKind) (f : FciB)
     (hf : match f with | .nack b => b.rtpSeq.Pairwise (· < ·) | _ => True) (p : UInt8) (s m : UInt32) :
-    Refines (FbBuilder.toWriter ⟨k, f.toFci, p, s, m⟩) (fbImage k f p s m) := by sorry
+    Refines (FbBuilder.toWriter ⟨k, f.toFci, p, s, m⟩) (fbImage k f p s m) := by
+  unfold fbImage
+  cases f with
+  | nack b =>
+    exact fb_refines_gen k _ _ (fciGood_of_refines (by simp [NackBuilder.toFci]) (nack_refines b hf)
+      (by rw [nackImage_length b hf]; omega) (nack_tail b hf)) p s m
+  | fir b =>
+    exact fb_refines_gen k _ _ (fciGood_of_refines (by simp [FirBuilder.toFci]) (fir_refines b)
+      (by rw [firImage, Var.length_firImage]; omega) (Var.fir_tail b)) p s m
+  | sli b =>
+    exact fb_refines_gen k _ _ (fciGood_of_refines (by simp [SliBuilder.toFci]) (sli_refines b)
+      (by rw [sliImage, Var.length_sliImage]; omega) (Var.sli_tail b)) p s m
+  | rpsi b =>
+    exact fb_refines_gen k _ _ (fciGood_of_refines (by simp [RpsiBuilder.toFci]) (rpsi_refines b)
+      (by rw [rpsiImage_length]; exact Var.pad4_mod _) (rpsi_tail b)) p s m
+  | pli =>
+    exact fb_refines_gen k _ _ (fciGood_of_refines (by decide) pli_refines rfl Var.pli_tail) p s m
 
 end Rtcp.Proofs
